@@ -101,7 +101,7 @@ NoCheck == [st |-> "idle", pos |-> 0, ep |-> "", valid |-> FALSE, adv |-> {}]
 Init ==
   /\ top = 0 /\ win = <<>> /\ tags = <<>> /\ wire = {} /\ npub = 0 /\ faults = 0
   /\ cfg \in Cfgs
-  /\ pc = "idle" /\ hub = FALSE /\ hres = [pubs |-> <<>>, top |-> 0, latest |-> 0, vis |-> 0, win |-> <<>>] /\ buf = <<>>
+  /\ pc = "idle" /\ hub = FALSE /\ hres = [pubs |-> <<>>, top |-> 0, latest |-> 0, vis |-> 0, win |-> <<>>, re |-> FALSE] /\ buf = <<>>
   /\ sub = [st |-> "none", pos |-> 0, ep |-> ""]
   /\ pend = 0 /\ out = <<>>
   /\ chk = NoCheck /\ nchk = 0
@@ -224,7 +224,8 @@ SubHistRead ==                               \* the broker's History call happen
               vis    |-> IF cfg.kind = "cache" THEN (IF cfg.filt THEN NewestVisible(Scan(win)) ELSE Newest(win)) ELSE 0,
               \* the newest publication in history, visible or not (C03: `recovered` does not depend on the filter)
               latest |-> IF cfg.kind = "cache" THEN Newest(win) ELSE 0,
-              win    |-> win]
+              win    |-> win,
+              re     |-> FALSE]            \* re: this is the re-read after the cache-empty handler populated
   /\ UNCHANGED <<top, win, tags, wire, npub, faults, cfg, hub, buf, sub, pend, chk, nchk, out>>
   /\ step' = [act |-> "SubHistRead"]
 
@@ -256,7 +257,7 @@ SubPopulate(tag) ==
      IN /\ win' = w2
         /\ hres' = [pubs |-> <<>>, top |-> top + 1,
                     vis |-> IF cfg.filt THEN NewestVisible(Scan(w2)) ELSE Newest(w2),
-                    latest |-> Newest(w2), win |-> w2]
+                    latest |-> Newest(w2), win |-> w2, re |-> TRUE]
   /\ wire' = wire \cup {[id |-> npub + 1, off |-> top + 1, ep |-> Ep, tag |-> tag, lag |-> FALSE]}
   /\ pc' = "g4"
   /\ UNCHANGED <<faults, cfg, hub, buf, sub, pend, chk, nchk, out>>
@@ -442,7 +443,7 @@ W_RedeliveryAfterCheck == ~(step.act = "Deliver" /\ chk.st = "idle" /\ step.id \
 \* witness search: "a cache subscribe whose cache-empty handler populated the channel with a publication the filter excludes
 \* never finishes" (the schedule on which a re-read that forgets the filters would deliver it)
 W_PopulatedFiltered == ~(step.act = "SubFinish" /\ cfg.kind = "cache" /\ cfg.pop /\ cfg.filt /\ Len(tags) >= 1
-                         /\ Filtered(tags[Len(tags)]) /\ hres.latest = Len(tags) /\ ReplyIdx # 0)
+                         /\ Filtered(tags[Len(tags)]) /\ hres.latest = Len(tags) /\ hres.re /\ ReplyIdx # 0)
 
 KindsPos == {"pos"}
 ServersClient == {FALSE}
